@@ -342,4 +342,8 @@ async def cook(schema, name, cfg=None, sdl=None, pre=None, **extra):
 
 
 def forget(name):
-    SchemaRegistry._schemas.pop(name, None)
+    """Drop a finished run's registrations (names are unique per run, so this is only housekeeping;
+    it must not depend on how the registry stores things)."""
+    store = getattr(SchemaRegistry, "_schemas", None)
+    if isinstance(store, dict):
+        store.pop(name, None)
